@@ -5,6 +5,10 @@ The reference arithmetic is Python's built-in int.  Nothing in here calls into b
 """
 import hashlib
 import re
+import sys
+
+if hasattr(sys, 'set_int_max_str_digits'):
+    sys.set_int_max_str_digits(0)
 
 PANIC = 'P'
 
